@@ -112,6 +112,7 @@ func (e *executableWorkflow) Execute(ctx context.Context, serializedInput any) (
 		runningSteps:      make(map[string]step.RunningStep, len(e.dag.ListNodes())),
 		reportedStages:    make(map[string]string, len(e.runnableSteps)),
 		completedSteps:    make(map[string]struct{}, len(e.runnableSteps)),
+		finishedStages:    make(map[string]map[string]struct{}, len(e.runnableSteps)),
 		outputDataChannel: make(chan outputDataType, 1),
 		outputDone:        false,
 		waitingOutputs:    outputNodes,
@@ -321,8 +322,10 @@ type loopState struct {
 	// reportedStages holds the stage each step has most recently reported entering, and completedSteps
 	// the steps that reported their completion. A step changes its stage and state before it reports the
 	// change, so comparing these to the step's own view tells if a report is still on its way.
-	reportedStages    map[string]string
-	completedSteps    map[string]struct{}
+	reportedStages map[string]string
+	completedSteps map[string]struct{}
+	// finishedStages holds, for each step, the stages it has gone through.
+	finishedStages    map[string]map[string]struct{}
 	outputDataChannel chan outputDataType
 	outputDone        bool
 	// waitingOutputs keeps track of all workflow output nodes to know when the workflow fails.
@@ -434,6 +437,10 @@ func (l *loopState) onStageComplete(
 		l.cancel()
 		return
 	}
+	if l.finishedStages[stepID] == nil {
+		l.finishedStages[stepID] = map[string]struct{}{}
+	}
+	l.finishedStages[stepID][*previousStage] = struct{}{}
 	if previousStageOutputID != nil {
 		outputNode, err := l.dag.GetNodeByID(GetOutputNodeID(stepID, *previousStage, *previousStageOutputID))
 		if err != nil {
@@ -470,7 +477,22 @@ func (l *loopState) onStageComplete(
 		l.data[WorkflowStepsKey].(map[string]any)[stepID].(map[string]any)[*previousStage] = map[string]any{}
 		l.data[WorkflowStepsKey].(map[string]any)[stepID].(map[string]any)[*previousStage].(map[string]any)[*previousStageOutputID] = serializedOutput(*previousStageOutput)
 	}
+	if newStage == nil {
+		l.markRemainingStagesUnresolvable(stepID)
+	}
 	l.notifySteps()
+}
+
+// markRemainingStagesUnresolvable declares that a completed step will not go through the stages it has not
+// gone through. What depends on them is settled now instead of waiting for something that cannot happen.
+func (l *loopState) markRemainingStagesUnresolvable(stepID string) {
+	for _, stage := range l.lifecycles[stepID].Stages {
+		if _, finished := l.finishedStages[stepID][stage.ID]; finished {
+			continue
+		}
+		l.markOutputsUnresolvable(stepID, stage.ID, nil)
+		l.markStageNodeUnresolvable(stepID, stage.ID)
+	}
 }
 
 // serializedOutput returns the serialized (map) form of a stage output. Step providers report some
